@@ -17,6 +17,10 @@ import (
 
 const dbPkg = "github.com/tendermint/tm-db"
 
+// dbStateKeys: the heap arrays of the key-value store model (`assigns dbstate`).
+var dbStateKeys = map[string]string{"MD|dbm": "Bool", "MV|dbm|val": "Int", "MV|dbm|cnt": "Int", "F|dbm|$writes": "Int",
+	"MV|dbmbatch|op": "Int", "MV|dbmbatch|val": "Int", "F|dbmbatch|db": "Int"}
+
 func (x *Exec) dbRef(v *Value) string {
 	if v.K == KIface {
 		return v.Fs[1].Term
